@@ -482,6 +482,33 @@ func (p *Projector) ProjectOp(op Op, withReads bool) []Ev {
 		evs := p.ProjectFile("Save", op.Proc, op.H, op.Data, op.Seq)
 		evs[len(evs)-1]["ok"] = op.OK
 		return evs
+	case "EnvPut":
+		// harness-made replacement of a file: a damaged pack keeps its id but loses blobs
+		name := "Damage"
+		evs := p.ProjectFile(name, "env", op.H, op.Data, op.Seq)
+		return evs
+	case "EnvRemove":
+		e := Ev{"proc": "env", "seq": op.Seq, "ok": true}
+		switch op.H.Type {
+		case backend.PackFile:
+			e["ev"] = "DropPack"
+		case backend.IndexFile:
+			e["ev"] = "DropIndex"
+		case backend.SnapshotFile:
+			e["ev"] = "DropSnap"
+		case backend.KeyFile:
+			e["ev"] = "DropKey"
+		case backend.LockFile:
+			e["ev"] = "RemoveLock"
+		case backend.ConfigFile:
+			e["ev"] = "DropConfig"
+		}
+		if op.H.Type == backend.ConfigFile {
+			e["id"] = "c"
+		} else {
+			e["id"] = p.Tok(fileClass(op.H.Type), op.H.Name)
+		}
+		return []Ev{e}
 	case "Remove":
 		effective := op.OK || (op.Injected && op.Mark == "after-effect")
 		if !effective {
